@@ -1197,3 +1197,103 @@ func contentDependence(v ssa.Value, seen map[ssa.Value]bool, d int) string {
 	}
 	return ""
 }
+
+// oneAddressPerKey: wallets are told apart by comparing address strings (issuer ≠ sealer, issuer ≠ genesis wallet, the
+// gossiper sets and the peer table keyed by address). That identifies wallets only if a key has one address: every part
+// of the decoded address that is not the key must be pinned — the checksum by the comparison with the computed one, the
+// version byte by a comparison with a constant. A version byte that is only fed into the checksum gives every key 256
+// addresses that all verify.
+func oneAddressPerKey(w *World, r *Report, rule string) {
+	r.rule(rule, "wallet.Helper.AddressToPubKey: the first byte of the decoded address (the version) is compared with a constant, and a key is returned on one side of that comparison only — together with the checksum comparison (verification-chain) and the tiling of the decoded bytes (address-fully-consumed) that leaves one address string per key", 1)
+	fn := w.Func("wallet", "Helper", "AddressToPubKey")
+	if fn == nil || len(fn.Blocks) == 0 {
+		r.bad(rule, "wallet.Helper.AddressToPubKey", "-", "the address decoder is identifiable", "not found")
+		return
+	}
+	var dec ssa.Value
+	for _, c := range callsTo(fn, cn("serializer", "", "Base58Decode")) {
+		dec = resultAt(c, 0)
+	}
+	if dec == nil {
+		r.undecided(rule, "wallet.Helper.AddressToPubKey/decoded", w.Pos(fn.Pos()), "the decoded address is identifiable", "no Base58Decode call")
+		return
+	}
+	var succ []*ssa.Return
+	for _, ret := range returnsOf(fn) {
+		if successReturn(ret) {
+			succ = append(succ, ret)
+		}
+	}
+	tested := false
+	instrsOf(fn, func(in ssa.Instruction) {
+		ia, ok := in.(*ssa.IndexAddr)
+		if !ok {
+			return
+		}
+		if k, isK := intConst(ia.Index); !isK || k != 0 {
+			return
+		}
+		from := false
+		for _, o := range origins(ia.X) {
+			if sameVal(o, dec) {
+				from = true
+			}
+		}
+		if !from && !sameVal(ia.X, dec) {
+			return
+		}
+		for _, lr := range *ia.Referrers() {
+			ld, isLd := lr.(*ssa.UnOp)
+			if !isLd || ld.Op != token.MUL {
+				continue
+			}
+			var cmp func(v ssa.Value, depth int)
+			cmp = func(v ssa.Value, depth int) {
+				if depth > 3 || v.Referrers() == nil {
+					return
+				}
+				for _, ref := range *v.Referrers() {
+					switch x := ref.(type) {
+					case *ssa.Convert:
+						cmp(x, depth+1)
+					case *ssa.Phi:
+						cmp(x, depth+1)
+					case *ssa.BinOp:
+						if x.Op != token.EQL && x.Op != token.NEQ {
+							continue
+						}
+						other := x.X
+						if other == v {
+							other = x.Y
+						}
+						if _, isConst := other.(*ssa.Const); !isConst {
+							continue
+						}
+						for _, br := range *x.Referrers() {
+							iff, isIf := br.(*ssa.If)
+							if !isIf {
+								continue
+							}
+							b := iff.Block()
+							side := func(s *ssa.BasicBlock) bool {
+								rs := reachable([]*ssa.BasicBlock{s}, nil)
+								for _, ret := range succ {
+									if rs[ret.Block()] {
+										return true
+									}
+								}
+								return false
+							}
+							if len(b.Succs) == 2 && side(b.Succs[0]) != side(b.Succs[1]) {
+								tested = true
+							}
+						}
+					}
+				}
+			}
+			cmp(ld, 0)
+		}
+	})
+	r.check(tested && len(succ) > 0, rule, "wallet.Helper.AddressToPubKey/version", w.Pos(fn.Pos()), "the version byte of the address is pinned to a constant before a key is returned",
+		"the version byte of the decoded address is read and enters the checksum, but is never compared with the wallet version: for each of the 255 other values the same public key has another address string that verifies — the guards that compare addresses (issuer ≠ sealer, issuer ≠ genesis, membership of the gossiper set, the peer table) take one wallet for several")
+}
